@@ -26,23 +26,32 @@ theorem sortInsertion_spec (a : List Int) :
     (sortInsertion a).Perm a ∧ (sortInsertion a).Pairwise (· ≤ ·) :=
   ⟨sortInsertion_perm a, sortInsertion_sorted a⟩
 
-/-- `ref_sort_heap_*` (literal sift-down loop, `n < 2` early return), generic statement: for ANY Boolean
+/-- the literal single `for (;;)` loop of `ref_sort_heap_*` (what the driver executes and the correspondence
+    stream compares) computes exactly its two phases (heapify, then extraction) -/
+theorem sortHeapLoop_is_two_phase {α : Type} [Inhabited α] (lt : α → α → Bool) (a : List α) :
+    sortHeapLoop lt a = sortHeap lt a := sortHeapLoop_eq lt a
+
+/-- `ref_sort_heap_*` (literal loop, `n < 2` early return), generic statement: for ANY Boolean
     comparison — in particular `<` on `REF_DBL` with NaNs — `sorted_index` is a permutation of `0..n-1` -/
 theorem sortHeap_perm_any {α : Type} [Inhabited α] (lt : α → α → Bool) (a : List α) :
-    (sortHeap lt a).Perm (List.range a.length) ∧ (applyIdx a (sortHeap lt a)).Perm a :=
-  ⟨sortHeap_perm lt a, applyIdx_perm a _ (sortHeap_perm lt a)⟩
+    (sortHeapLoop lt a).Perm (List.range a.length) ∧ (applyIdx a (sortHeapLoop lt a)).Perm a := by
+  rw [sortHeapLoop_eq]
+  exact ⟨sortHeap_perm lt a, applyIdx_perm a _ (sortHeap_perm lt a)⟩
 
 /-- `ref_sort_heap_*` over any linear order: `original[sorted_index[·]]` is non-decreasing -/
 theorem sortHeap_sorted_linear {α : Type} [Inhabited α] [LinearOrder α] (a : List α) :
-    (applyIdx a (sortHeap (fun x y => decide (x < y)) a)).Pairwise (· ≤ ·) :=
-  sortHeap_sorted a
+    (applyIdx a (sortHeapLoop (fun x y => decide (x < y)) a)).Pairwise (· ≤ ·) := by
+  rw [sortHeapLoop_eq]
+  exact sortHeap_sorted a
 
 /-- `ref_sort_heap_int`: a permutation of `0..n-1` under which the keys are non-decreasing -/
 theorem sortHeapInt_spec (a : List Int) :
     (sortHeapInt a).Perm (List.range a.length) ∧ (applyIdx a (sortHeapInt a)).Perm a ∧
       (applyIdx a (sortHeapInt a)).Pairwise (· ≤ ·) := by
+  unfold sortHeapInt
+  rw [sortHeapLoop_eq]
   refine ⟨sortHeap_perm _ a, applyIdx_perm a _ (sortHeap_perm _ a), ?_⟩
-  unfold sortHeapInt; rw [ltInt_eq]; exact sortHeap_sorted a
+  rw [ltInt_eq]; exact sortHeap_sorted a
 
 /-- `ref_sort_heap_glob` (same text with `REF_GLOB` keys) -/
 theorem sortHeapGlob_spec (a : List Int) :
